@@ -38,6 +38,9 @@ pub struct TCase {
     pub trader_explicit: bool,
     pub ops: Vec<TOp>,
     pub start_s: u64,
+    /// module strictness is a swarm dimension: a bank that accepts any recipient string
+    #[serde(default)]
+    pub lenient_bank: bool,
 }
 
 fn dn(i: u8) -> &'static str {
@@ -146,7 +149,7 @@ pub fn gen(seed: u64, prop: &str) -> TCase {
         };
         ops.push(op);
     }
-    TCase { routes, admin_explicit: rng.chance(1, 2), trader_explicit: rng.chance(1, 2), ops, start_s: 1_700_000_000 + rng.below(50_000_000) }
+    TCase { routes, admin_explicit: rng.chance(1, 2), trader_explicit: rng.chance(1, 2), ops, start_s: 1_700_000_000 + rng.below(50_000_000), lenient_bank: rng.chance(3, 10) }
 }
 
 struct TModel {
@@ -175,6 +178,7 @@ pub fn eval(c: &TCase) -> Eval {
     let t = setup.treasury_addr.clone();
     let mut w = World::new(setup, c.start_s * 1_000_000_000);
     w.st.channels.insert("channel-1".into(), Chan { open: true, next_seq: 10 });
+    w.lenient_bank = c.lenient_bank;
     let mut ev = Eval::default();
     let mut viol: Vec<Violation> = vec![];
     // principals: 0 = current admin (dynamic), 1 = current trader (dynamic), 2.. fixed accounts
